@@ -82,6 +82,9 @@ def ts_kind(t):
                 kinds.add(TS_KIND[last])
         if isinstance(x, tuple) and x and x[0] == 'fld' and ts_name_kind(x[2]):
             kinds.add(ts_name_kind(x[2]))
+        # (the single-threaded cache keeps the two timestamps in the entry's deque nodes: "no node" is "no timestamp of that kind")
+        if isinstance(x, tuple) and x and x[0] == 'fld' and x[2] in ('access_order_q_node', 'write_order_q_node'):
+            kinds.add('ao' if x[2] == 'access_order_q_node' else 'wo')
     return kinds
 
 
@@ -91,6 +94,15 @@ def ts_entry(t):
     for x in subterms(t):
         if isinstance(x, tuple) and x and x[0] == 'call' and str(x[1]).split('::')[-1] in TS_KIND and x[2]:
             out.append(x[2][0])
+    if not out:
+        # the accessor was stepped into (the entry type is concrete at this call site): the timestamp is read through fields of the entry --
+        # the entry is the map lookup result those fields hang off
+        for x in subterms(t):
+            if isinstance(x, tuple) and x and x[0] == 'fld' and (ts_name_kind(x[2]) or x[2] in ('access_order_q_node', 'write_order_q_node')):
+                y = x[1]
+                while isinstance(y, tuple) and y and y[0] == 'fld':
+                    y = y[1]
+                out.append(y)
     return out
 
 
